@@ -7,7 +7,7 @@ CONSTANTS
   MaxNr = 2
   MinAge = "zero"
   MaxAge = "inf"
-  MaxNrEquality = TRUE
+  MaxNrEquality = FALSE
   MaxSerial = 3
   MaxSession = 2
   DeltaChoices <- Deltas1
